@@ -74,6 +74,7 @@ def run(ctx, R):
     reduce_term_guards(F, R)
     functor_arity_checked(F, R)
     end_of_input_and_bad_bytes_in_the_lexer(F, R)
+    separators_are_not_elements(F, R)
 
     # ---- progress ---------------------------------------------------------------------------------------------
     entry, local_bad, edges, counts = progress.analyse(F)
@@ -437,3 +438,45 @@ def end_of_input_and_bad_bytes_in_the_lexer(F, R):
     okd = [x["ln"] for x in walk(sl) if x["k"] == "MethodCall" and x["name"] in ("ok", "unwrap_or", "unwrap_or_default") and any(is_la(y) for y in walk(x["recv"]))]
     R.ob("C17:scan_for_layout:decoder-error-is-reported", not okd,
          "scan_for_layout discards the error of its look-ahead (lines %s): the bytes of an invalid sequence after a blank are consumed and never reported" % okd, F.where(L["scan_for_layout"]))
+
+
+def separators_are_not_elements(F, R):
+    """The parser keeps two stacks: descriptors and terms. When it closes `name(..)` or `[..]` it counts the elements from
+    the descriptors and then takes that many terms. A descriptor counted as an element must own a term. '|' declared as an
+    infix operator (library(dcgs)) has an operator's specifier and no term: counted as an element it makes the parser take a
+    term that belongs to the enclosing expression (`X = [|].` read as a bare variable)."""
+    n = 0
+    for name in ("compute_arity_in_brackets", "compute_arity_in_list"):
+        fn = [p for p, it in F.items.items() if it["file"] == "src/parser/parser.rs" and p.endswith("::" + name)]
+        if len(fn) != 1:
+            raise AnchorLost("Parser::%s (%d)" % (name, len(fn)))
+        body = F.hir(fn[0])["body"]
+        # the branch for the positions where an element is expected: `if i % 2 == 0 { .. }`
+        even = [x for x in walk(body) if x["k"] == "If" and any(y["k"] == "Binary" and y.get("op") == "Rem" for y in walk(x["cond"]))]
+        if len(even) != 1:
+            raise AnchorLost("%s: the `i %% 2 == 0` branch (%d)" % (name, len(even)))
+        rejected = set()
+        for x in walk(even[0]["then"]):
+            if x["k"] == "If" and any(y.get("k") == "Ret" for y in walk(x["then"])):
+                for lc in walk(x["cond"]):
+                    if lc.get("k") == "LetCond":
+                        for l in walk(lc["pat"]):
+                            rn = res_name(l) if isinstance(l, dict) else None
+                            if rn and "TokenType::" in rn:
+                                rejected.add(rn.rsplit("::", 1)[-1])
+        # descriptors that end the count with None: collect TokenType variants in patterns whose arm/then returns None
+        from .core import matches_in
+        for m in matches_in(even[0]["then"], src=None):
+            for arm in m["arms"]:
+                if any((res_name(y) or "").endswith("Option::None") or (res_name(y) or "").endswith("::None") for y in walk(arm["body"]) if isinstance(y, dict) and y.get("k") in ("Path", "Ret")) or \
+                        any(y.get("k") == "Ret" for y in walk(arm["body"])):
+                    for l in walk(arm["pat"]):
+                        rn = res_name(l) if isinstance(l, dict) else None
+                        if rn and "TokenType::" in rn:
+                            rejected.add(rn.rsplit("::", 1)[-1])
+        n += 1
+        R.ob("C17:arity-count:%s:separators-are-not-elements" % name, {"Comma", "HeadTailSeparator"} <= rejected,
+             "%s counts the elements of a bracketed sequence and, where an element is expected, refuses only %s: a '|' declared as an operator is counted as an "
+             "element although it owns no term, and the parser then consumes a term of the enclosing expression (X = [|]. and X = foo(|). read as a bare variable)"
+             % (name, sorted(rejected)), F.where(fn[0]))
+    R.floor("element counters of the parser", n, 2)
